@@ -79,6 +79,11 @@ ScriptOK(es, lhs, rhs) ==
        /\ Kept(es, 1) = LCSLen(lhs, rhs)             \* minimal: no script keeps more
        /\ Canonical(es)
 
+\* ScriptOK without the minimality clause
+ScriptValid(es, lhs, rhs) ==
+  IF es = <<>> THEN lhs = rhs
+  ELSE lhs # rhs /\ Valid(es, lhs, rhs) /\ Produced(es, 1) = rhs /\ Consumed(es, 1) = lhs /\ Canonical(es)
+
 LcsOK(out, a, b) == IsSubseq(out, a) /\ IsSubseq(out, b) /\ Len(out) = LCSLen(a, b)
 
 (* ---- transcription of slice/edit.go ------------------------------------ *)
